@@ -40,9 +40,17 @@ OPEN_WRITEISH = re.compile(r'^std::fs::OpenOptions::(write|append|create|create_
 OPEN_READ = re.compile(r'^std::fs::OpenOptions::(read|new)$|OpenOptionsExt>::(custom_flags|mode)$|OpenOptions as std::clone::Clone>::clone$')
 
 
+# ioctl requests that only read (the request is the second argument, a named constant of libc)
+READONLY_IOCTL = re.compile(r'FS_IOC_GETFLAGS|FS_IOC_GETVERSION|FS_IOC_FIEMAP|FIGETBSZ|FIONREAD|FIBMAP|BLKGETSIZE|BLKSSZGET|TIOCGWINSZ')
+
+
 def sink_kind(call):
     for r, k, a in SINKS:
         if any(r.search(n) for n in call.names()):
+            if k == 'ioctl' and len(call.args) > 1:
+                kk = op_const(call.args[1])
+                if isinstance(kk, dict) and READONLY_IOCTL.search(str(kk.get('item') or kk.get('v') or '')):
+                    return None
             return k, a
     return None
 
